@@ -33,6 +33,9 @@ pub async fn run_line(line: &str) -> String {
         "frag_make" => ops_frag::frag_make(&args),
         "frag_rt" => ops_frag::frag_roundtrip(&args),
         "dispatch" => ops_dispatch::dispatch(&args).await,
+        "reload_seq" => ops_dispatch::reload_seq(&args).await,
+        "reload_conc" => ops_dispatch::reload_conc(&args).await,
+        "lb_seq" => ops_dispatch::lb_seq(&args).await,
         "milu_parse" => ops_milu::milu_parse(&args),
         "milu_eval" => ops_milu::milu_eval(&args),
         "req_texts" => ops_milu::req_texts(&args),
